@@ -978,7 +978,8 @@ def follower_reads_after_probe(ctx, rid):
     prog = ctx.prog
     b = prog.one(r"@bin::log::LogState::catlog")
     ba = BA.of(b)
-    probes = ba.calls(r"@bin::log::is_locked")
+    # the probe: the helper, or (inlined) a non-blocking try_lock on a lock made for the purpose
+    probes = ba.calls(r"@bin::log::is_locked") + ba.calls(r"state::Lock::try_lock")
     reads = ba.calls(r".*::BufRead(>)?::read_line|.*::read_line|std::fs::File::open")
     rl = [i for i in reads if any(q.endswith("read_line") for q in callee_paths(b.blocks[i]["term"]))]
     # "there is no reader" (no log file yet) is decided by the open attempt of the same iteration; the None side of
@@ -1042,6 +1043,86 @@ def parse_keeps_text_verbatim(ctx, rid):
                 ctx.ob(rid, "%s|parse-argument|only-the-newline-stripped" % b.key, only_nl, where=ctx.where(b, o[1]),
                        detail="the caller strips the line terminator and nothing else" if only_nl else
                        "the caller trims more than the terminating newline before parsing: trailing blanks of a target name are lost")
+
+
+def record_content_never_panics(ctx, rid):
+    """F-AC: a build script's stderr goes into the same file as redo's own records, so a line that merely looks like a
+    record reaches the record branch of the follower. What is read out of such a line (Meta::text / kind / done_text ..)
+    is script-controlled data: an `expect` / `unwrap` on it, or an `assert!` about it, lets one odd line of output kill
+    the viewer - the rest of the build's output is then missing from the live view and from redo-log."""
+    from core import taint
+    ctx.rule(rid, "redo-log's follower never panics on the content of a parsed record: no expect/unwrap whose operand is what a logs::Meta accessor returned, and no assertion whose condition is computed from it (script output that looks like a malformed record is shown as text)")
+    prog = ctx.prog
+    b = prog.one(r"@bin::log::LogState::catlog")
+    ba = BA.of(b)
+    parses = ba.calls(r"logs::Meta::parse")
+    if not parses:
+        raise AnchorError("%s: Meta::parse call of the log follower not located" % rid)
+    g_t = taint(b, seeds={b.blocks[i]["term"]["dest"]["l"] for i in parses}, mode="direct")
+    acc = [i for i in ba.calls(r"logs::Meta::\w+") if i not in parses and any(op_local(a) is not None and (op_local(a) in g_t or any(x in g_t for x in ba.ref_chain(op_local(a)))) for a in b.blocks[i]["term"]["args"])]
+    c_t = taint(b, seeds={b.blocks[i]["term"]["dest"]["l"] for i in acc}, mode="direct")
+
+    def tainted(a):
+        l = op_local(a)
+        return l is not None and (l in c_t or any(x in c_t for x in ba.ref_chain(l)))
+    bad = []
+    for i in ba.calls(r"core::option::Option::(expect|unwrap)|core::result::Result::(expect|unwrap)"):
+        t = b.blocks[i]["term"]
+        if t["args"] and tainted(t["args"][0]):
+            bad.append((i, "expect/unwrap on a value read from the record"))
+    acc_dests = {b.blocks[j]["term"]["dest"]["l"] for j in acc}
+    for i in ba.calls(r"core::panicking::(panic|panic_fmt|assert_failed|panic_display|panic_str)"):
+        # a branch on a value read from the record, one side of which is the only way to this panic
+        for x in sorted(ba.dom.get(i, ())):
+            if x == i:
+                continue
+            bs = ba.bool_switch(x)
+            if bs is None:
+                continue
+            t_t, f_t, (kind, info) = bs
+            if kind != "call":
+                continue
+            if not any(tainted(a) or op_local(a) in acc_dests for a in info[1]["args"] if op_local(a) is not None):
+                continue
+            if ba.edge_dominates((x, t_t), i) != ba.edge_dominates((x, f_t), i):
+                bad.append((i, "assertion about a value read from the record"))
+                break
+    ctx.ob(rid, "%s|record-accessors-located" % b.key, bool(acc), where=b.span, detail="%d reads of a parsed record's fields" % len(acc))
+    for k, (i, why) in common.ordinal_keys([("panic-site", x) for x in bad]):
+        ctx.ob(rid, "%s|%s" % (b.key, k), False, where=ctx.where(b, i),
+               detail="%s: a stderr line of a build script that resembles a record with unexpected content aborts the viewer, and every later line of the build is lost from the live view and from redo-log (redo still exits 0)" % why)
+    if not bad:
+        ctx.ob(rid, "%s|no-panic-on-record-content" % b.key, True, where=b.span, detail="nothing read from a parsed record feeds an expect / unwrap / assertion")
+
+
+def foreign_file_not_recorded_as_ours(ctx, rid):
+    """F-AA: when record_new_state finds that the target was written behind redo's back during the build (status 206:
+    it did not exist / had another mtime before the script ran), the file on disk is *not* redo's output. The record
+    saved on that path must not say `generated by redo, stamp = this file's stamp, not overridden`: the next run would
+    then take the file for its own product and replace it. Accepted ways out: the override flag is set on that path, or
+    the stamp is not refreshed on it (the old stamp then makes the next run detect the override)."""
+    from rules.C04 import const_assign_blocks
+    ctx.rule(rid, "a target found modified behind redo's back during its build (206) is not recorded as redo's own unmodified output: on every path from that decision to the save, either the override flag is set or the stamp is left as it was")
+    prog = ctx.prog
+    R = anchors.record_new_state(prog)
+    rba = BA.of(R)
+    a206 = const_assign_blocks(R, 206)
+    saves = rba.calls(r"state::File::save")
+    if not a206 or not saves:
+        raise AnchorError("%s: the direct-modification decision (status 206) / save in record_new_state not located" % rid)
+    ov = set(rba.calls(r"state::File::set_override"))
+    for (bb, j, st_) in field_writes(R, r"state::File\.is_override"):
+        c = op_const(st_["rv"].get("op")) if st_["rv"]["k"] == "use" else None
+        if c is not None and c.get("bool") is True:
+            ov.add(bb)
+    fresh = set(rba.calls(r"state::File::(set_failed|update_stamp|set_static)")) | {bb for (bb, j, st_) in field_writes(R, r"state::File\.stamp")}
+    for a in a206:
+        marks = rba.path([a], saves, avoid=frozenset(ov), incl=True) is None
+        keeps = not any(rba.path([a], [f], incl=True) is not None and any(rba.path([f], [s_], incl=True) is not None for s_ in saves) for f in fresh)
+        ok = marks or keeps
+        ctx.ob(rid, "%s|direct-modification=>not-recorded-as-redo's-output" % R.key, ok, where=ctx.where(R, a),
+               detail="the foreign file is flagged (override) or its stamp is not taken over" if ok else
+               "after exit 206 the record says: generated, not overridden, stamp = the foreign file's: the next redo of the target overwrites the file the user put there, without a warning")
 
 
 def lock_file_opened_once(ctx, rid):
@@ -1387,7 +1468,11 @@ def borrow(prop_from, rule_from, key_rx, why):
         sub = _BORROW_CACHE.get(ck)
         if sub is None:
             sub = engine.Ctx(ctx.prog, ctx.cg, prop_from, ctx.tier)
-            importlib.import_module("rules." + prop_from).run(sub)
+            try:
+                importlib.import_module("rules." + prop_from).run(sub)
+            except AnchorError as e:
+                # the lending table stopped at a missing anchor: what it decided before that point still counts
+                sub.note("stopped at: %s" % e)
             _BORROW_CACHE.clear()
             _BORROW_CACHE[ck] = sub
         ctx.rule(rid, "(= %s of %s) %s; matters here because %s" % (rule_from, prop_from, sub.rules.get(rule_from, ""), why))
@@ -1426,7 +1511,7 @@ TABLE = {
             ("R5.15", failed_marker_not_cleared_at_start)],
     "C04": [("R4.6", output_probed_with_lstat), ("R4.7", direct_modification_is_inequality), ("R4.8", stdout_amount_from_fstat),
             ("R4.9", borrow("C13", "R13.3", r"^[^|]*\|\$3=", "two targets that differ only in the matched extension must not share one temp output file: the second script's output would replace or destroy the first's"))],
-    "C11": [("R11.8", direct_modification_is_inequality),
+    "C11": [("R11.8", direct_modification_is_inequality), ("R11.11", foreign_file_not_recorded_as_ours),
             ("R11.9", borrow("C15", "R15.2", None, "the record consulted for `generated / override` must be the one of the file the kernel will resolve: a spelling cleaned before symlinks are resolved selects another record and a user's file is replaced"))],
     "C06": [("R6.9", verdict_only_under_lock), ("R6.10", lock_file_opened_once),
             ("R6.11", borrow("C15", "R15.9", None, "the lock id is the id of the record the name maps to: a directory spelling that is not resolved (a lexical shortcut, or a directory that does not exist yet) gives the same file a second record and a second lock, and two commands run its .do at the same time"))],
@@ -1448,7 +1533,7 @@ TABLE = {
     "C17": [("R17.6", ood_lists_every_nonclean), ("R17.7", check_never_refreshes_stamps)],
     "C18": [("R18.7", done_status_type_agrees), ("R18.8", seen_only_when_shown), ("R18.9", record_after_partial_line),
             ("R18.10", record_names_relative_to_target_dir), ("R18.11", non_record_line_echoed_whole),
-            ("R18.12", follower_reads_after_probe), ("R18.13", parse_keeps_text_verbatim)],
+            ("R18.12", follower_reads_after_probe), ("R18.13", parse_keeps_text_verbatim), ("R18.14", record_content_never_panics)],
     "C15": [("R15.7", key_never_bypasses_relpath), ("R15.8", relpath_is_componentwise)],
     "C10": [("R10.12", borrow("C04", "R4.4", r"tmp-name|same-tmp", "the stale-output removal before the fork must name the same file the script will be told to write ($3, beside the target): removing another path leaves the half-written output of a killed build in place, to be taken for this build's output")),
             ("R10.8", rename_inside_result_transaction), ("R10.10", interrupted_creation_is_recoverable), ("R10.11", failed_marker_not_cleared_at_start),
